@@ -302,6 +302,8 @@ def check_property(prop, tier, seed):
     state_files = []
     memclass = prop in plan.MEMORY_CLASS
 
+    cov_legs = [l for l in legs if l.get("kind") == "coverage"]
+    legs = [l for l in legs if l.get("kind") != "coverage"]
     special = [l for l in legs if l.get("kind") == "probes"]
     legs = [l for l in legs if l.get("kind") != "probes"]
     for l in special:
@@ -435,6 +437,17 @@ def check_property(prop, tier, seed):
                 notes.append(f"other-property={k} count={v['n']}")
         leginfo["wall_s"] = round(max([r.wall for r in results] or [0.0]), 1)
         agg["legs"].append(leginfo)
+
+    for l in cov_legs:
+        # line coverage of /repo/src reached by the workloads: reported, never a verdict
+        try:
+            p = subprocess.run(["python3", os.path.join(VERIF, "lib", "coverage.py")], stdout=subprocess.PIPE, stderr=subprocess.STDOUT, text=True, timeout=3000)
+            cj = os.path.join(VERIF, "evidence", "coverage.json")
+            if p.returncode == 0 and os.path.exists(cj):
+                c = json.load(open(cj))
+                agg["x_line_coverage_of_repo_src"] = {k: f"{v['covered']}/{v['lines']} ({v['percent']}%)" for k, v in c["files"].items()}
+        except Exception as e:  # noqa
+            notes.append(f"coverage report failed: {e}")
 
     # ------------------------------------------------------------------ verdict
     for n in sorted(set(notes))[:20]:
